@@ -100,8 +100,12 @@ def load(chk: Check, tier: str) -> List[Dict[str, Any]]:
     chk.add_tlc(r)
     cdocs = [x for x in r.records if "docs" in x][0]["docs"]
     cctx = [x for x in r.records if "docs" in x][0]["ctx"]
+    # (a document that is a string cannot be handed over as a value - the API reads a str argument as JSON text - C11 gives it its own forms)
+    keep = [i for i, d in enumerate(cdocs) if d["doc"].get("t") != "str"]
+    cdocs = [cdocs[i] for i in keep]
     for x in r.records:
         if "docs" not in x:
+            x["res"] = [x["res"][i] for i in keep]
             x["family"] = "compound"
             x["_docs"] = cdocs
             x["_ctx"] = cctx
